@@ -8,10 +8,19 @@
 #include "session_posix_file_storage.h"
 #include <sys/syscall.h>
 #include <dirent.h>
+#include <fcntl.h>
+#include <stdarg.h>
+#include <memory>
+#include "coop_sched.h"
 
 static time_t T0=1000000; /* base of the virtual clock; the epoch2039 sub-pass sets it beyond 2^31 */ static time_t g_now=1000000; extern "C" time_t time(time_t *t){ if(t) *t=g_now; return g_now; }
 struct W { std::string bytes; long off; }; static bool g_log=false; static std::vector<W> g_writes; static int g_fail_after=-1;
-extern "C" ssize_t write(int fd,const void *buf,size_t n){ if(g_log&&fd>2){ W w; w.bytes.assign((const char*)buf,n); w.off=syscall(SYS_lseek,fd,0L,SEEK_CUR); g_writes.push_back(w); } return syscall(SYS_write,fd,buf,n); }
+extern "C" ssize_t write(int fd,const void *buf,size_t n){ if(g_log&&fd>2){ W w; w.bytes.assign((const char*)buf,n); w.off=syscall(SYS_lseek,fd,0L,SEEK_CUR); g_writes.push_back(w); } if(fd>2) sched::yield_point(); return syscall(SYS_write,fd,buf,n); }
+// scheduling points of the concurrent pass: the file system calls of the storage (no-ops outside an exploration)
+extern "C" int open(const char *p,int fl,...){ mode_t m=0; if(fl&O_CREAT){ va_list ap; va_start(ap,fl); m=va_arg(ap,int); va_end(ap); } sched::yield_point(); return syscall(SYS_openat,AT_FDCWD,p,fl,m); }
+extern "C" int open64(const char *p,int fl,...){ mode_t m=0; if(fl&O_CREAT){ va_list ap; va_start(ap,fl); m=va_arg(ap,int); va_end(ap); } sched::yield_point(); return syscall(SYS_openat,AT_FDCWD,p,fl,m); }
+extern "C" int unlink(const char *p){ sched::yield_point(); return syscall(SYS_unlink,p); }
+extern "C" ssize_t read(int fd,void *b,size_t n){ if(fd>2) sched::yield_point(); return syscall(SYS_read,fd,b,n); }
 
 using cppcms::sessions::session_file_storage;
 static const char *SID="0123456789abcdef0123456789abcdef";
@@ -98,13 +107,54 @@ static void garbage(int sh,int n){ // well-formed names, arbitrary contents
 	if(sh==0&&vf::thorough()){ uint32_t huge[]={0x7fffffffu,0xffffffffu}; for(int i=0;i<2;i++){ std::string f=good; memcpy(&f[12],&huge[i],4); recover(true,f,none,"garbage size-field="+std::to_string(huge[i]),false); } }
 }
 
+// ---- concurrent pass: threads of one process saving / loading / removing / collecting ONE sid (mutex mode) ------------------
+// Stateless model checking under engine/coop_sched.h: scheduling points are every pthread mutex operation and every open /
+// read / write / unlink of the storage. Every schedule up to the preemption bound; the recorded history plus a final load
+// must be explained by SOME sequential order (consistent with real time) of a plain reference: the file is absent or holds
+// one (deadline, value); gc removes what has no valid time stamp; load removes what it cannot return. In particular a save
+// that returned is never lost to a concurrent gc/load ("never removes a live session").
+struct COp { int kind; int v; }; // kind 0 save 1 load 2 remove 3 gc; v: save variant
+struct CFile { bool present,ts_valid,loadable; time_t d; std::string data; CFile():present(false),ts_valid(false),loadable(false),d(0){} };
+struct CEv { int thread; COp op; long inv,res; bool hit; time_t d; std::string data; };
+static std::string cop_str(const COp &o){ const char *sv[]={"save(now+100,'A')","save(now+200,'BBBBBBBBBBBBBBBBBBBBBBBBBBBBBBBBBBBBBBBB')","save(now-10,'P')"}; return o.kind==0?sv[o.v]: o.kind==1?"load": o.kind==2?"remove":"gc"; }
+static void csave_args(int v,time_t &d,std::string &data){ if(v==0){ d=g_now+100; data="A"; } else if(v==1){ d=g_now+200; data=std::string(40,'B'); } else { d=g_now-10; data="P"; } }
+// the sequential reference; returns false if the observed result is impossible in state f
+static bool cstep(CFile &f,const CEv &e){ switch(e.op.kind){ case 0:{ f.present=true; f.loadable=true; csave_args(e.op.v,f.d,f.data); f.ts_valid= f.d>=g_now; return true; }
+	case 1:{ bool hit= f.present&&f.ts_valid&&f.loadable; if(hit!=e.hit) return false; if(hit){ return e.d==f.d&&e.data==f.data; } f.present=false; return true; }
+	case 2: f.present=false; return true; default: if(f.present&&!f.ts_valid) f.present=false; return true; } }
+static bool clin(const CFile &f0,const std::vector<CEv> &H,std::vector<bool> &used,size_t done,const CEv &audit){ if(done==H.size()){ CFile f=f0; return cstep(f,audit); }
+	for(size_t i=0;i<H.size();i++){ if(used[i]) continue; bool ok=true; for(size_t j=0;j<H.size();j++) if(!used[j]&&j!=i&&H[j].res<H[i].inv){ ok=false; break; } if(!ok) continue; CFile f=f0; if(!cstep(f,H[i])) continue; used[i]=true; if(clin(f,H,used,done+1,audit)) return true; used[i]=false; } return false; }
+struct CInit { std::string label; CFile f; std::string bytes; };
+static std::string file_image(time_t d,const std::string &data,bool bad_crc){ put_file(false,""); { session_file_storage st(g_dir,4,1,false); st.save(SID,d,data); } std::string b; read_file(b); if(bad_crc&&!b.empty()) b[b.size()-1]^=1; put_file(false,""); return b; }
+static std::vector<CInit> cinits(){ std::vector<CInit> v; { CInit i; i.label="absent"; i.f.present=false; v.push_back(i); } { CInit i; i.label="live older value"; i.f.present=true; i.f.ts_valid=true; i.f.loadable=true; i.f.d=g_now+50; i.f.data=std::string(70,'o'); i.bytes=file_image(i.f.d,i.f.data,false); v.push_back(i); }
+	{ CInit i; i.label="complete file past its deadline"; i.f.present=true; i.f.ts_valid=false; i.f.loadable=true; i.f.d=g_now-20; i.f.data="exp"; i.bytes=file_image(i.f.d,i.f.data,false); v.push_back(i); } { CInit i; i.label="empty file (crash right after creation)"; i.f.present=true; i.f.ts_valid=false; i.f.loadable=false; v.push_back(i); }
+	{ CInit i; i.label="torn file: future time stamp, data not matching the checksum"; i.f.present=true; i.f.ts_valid=true; i.f.loadable=false; i.bytes=file_image(g_now+50,"torn",true); v.push_back(i); } return v; }
+struct CExec { std::unique_ptr<session_file_storage> st; std::vector<CEv> hist; long clock; CExec():clock(0){} };
+static uint64_t n_cexec=0,n_coverlap=0;
+static void cdo(CExec &x,CEv &e){ e.inv=++x.clock; e.hit=false; e.d=0; try{ if(e.op.kind==0){ time_t d; std::string data; csave_args(e.op.v,d,data); x.st->save(SID,d,data); } else if(e.op.kind==1){ e.hit=x.st->load(SID,e.d,e.data); } else if(e.op.kind==2) x.st->remove(SID); else x.st->gc(); }catch(std::exception const &ex){ e.data=std::string("EXC ")+ex.what(); e.hit=true; e.d=-7; } e.res=++x.clock; }
+static void concurrent_program(const CInit &in,const std::vector<std::vector<COp> > &progs,int bound){ std::string cs="initial file: "+in.label+";"; for(size_t t=0;t<progs.size();t++){ cs+=" T"+std::to_string(t)+"["; for(size_t i=0;i<progs[t].size();i++) cs+=(i?"; ":"")+cop_str(progs[t][i]); cs+="]"; } vf::announce(cs); std::shared_ptr<CExec> cur; std::set<std::string> outcomes;
+	auto factory=[&]()->std::vector<std::function<void()> >{ put_file(in.f.present,in.bytes); cur.reset(new CExec()); cur->st.reset(new session_file_storage(g_dir,4,1,false)); std::vector<std::function<void()> > b; std::shared_ptr<CExec> x=cur; for(size_t t=0;t<progs.size();t++){ std::vector<COp> pr=progs[t]; b.push_back([x,pr,t](){ for(size_t i=0;i<pr.size();i++){ CEv e; e.thread=t; e.op=pr[i]; cdo(*x,e); x->hist.push_back(e); } }); } return b; };
+	auto after=[&](const sched::Result &r){ n_cexec++; vf::eval(); vf::C().traces++; vf::C().transitions+=r.points.size(); if(r.deadlock){ vf::violation("concurrent:deadlock","a schedule of concurrent session file operations deadlocks ["+cs+" schedule="+r.choices+"]","\"case\":"+vf::jstr(cs)+",\"schedule\":"+vf::jstr(r.choices)); return; }
+		CExec &x=*cur; CEv audit; audit.op.kind=1; audit.op.v=0; cdo(x,audit); std::vector<CEv> H=x.hist; bool overlap=false; for(size_t i=0;i<H.size();i++) for(size_t j=0;j<H.size();j++) if(i!=j&&H[i].inv<H[j].res&&H[j].inv<H[i].res) overlap=true; if(overlap) n_coverlap++;
+		auto ev_str=[&](const CEv &e){ return "T"+std::to_string(e.thread)+":"+cop_str(e.op)+"@["+std::to_string(e.inv)+","+std::to_string(e.res)+"]"+(e.op.kind==1?(e.hit?"->("+std::to_string((long long)(e.d-g_now))+","+vf::vis(e.data.substr(0,12))+")":"->none"):std::string()); };
+		std::vector<bool> used(H.size(),false); if(!clin(in.f,H,used,0,audit)){ std::string hs; for(size_t i=0;i<H.size();i++) hs+=ev_str(H[i])+"; "; bool lost=!audit.hit; vf::violation(std::string("concurrent:")+(lost?"live-session-lost":"wrong-session-content"),"no sequential order of the operations explains the history "+hs+"final load"+(audit.hit?" returns ("+std::to_string((long long)(audit.d-g_now))+","+vf::vis(audit.data.substr(0,12))+")":" finds no session")+" ["+cs+" schedule="+r.choices+"]","\"case\":"+vf::jstr(cs)+",\"schedule\":"+vf::jstr(r.choices)); }
+		std::string oc; for(size_t i=0;i<H.size();i++) oc+=ev_str(H[i]).substr(ev_str(H[i]).find(']')+1)+"|"; oc+=audit.hit?audit.data.substr(0,3):"none"; outcomes.insert(oc); vf::outcome(cs+oc); { static uint64_t sc=0; if(vf::sample_tick(sc,1501)) vf::sample("{\"program\":"+vf::jstr(cs)+",\"schedule\":"+vf::jstr(r.choices)+",\"scheduling_points\":"+std::to_string(r.points.size())+",\"final_load\":"+vf::jstr(audit.hit?"session":"none")+"}"); } };
+	bool complete=true; sched::explore(bound,factory,after,&complete,[](){ return vf::deadline_reached()||vf::nviol()>20; }); if(!complete) vf::C().exhaustive=false; vf::C().states+=outcomes.size(); if(outcomes.size()>1) vf::guard("concurrent_programs_with_several_outcomes"); }
+static void concurrent_pass(int sh,int n){ bool th=vf::thorough(); std::vector<CInit> I=cinits(); COp A[]={{0,0},{0,1},{0,2},{1,0},{2,0},{3,0}}; int NA=6; uint64_t idx=0;
+	for(size_t ii=0;ii<I.size();ii++) for(int a=0;a<NA;a++) for(int b=a;b<NA;b++){ if((idx++%n)!=(uint64_t)sh) continue; std::vector<std::vector<COp> > p(2); p[0].push_back(A[a]); p[1].push_back(A[b]); concurrent_program(I[ii],p,th?4:3); vf::guard("concurrent_pairs"); }
+	// three threads, and a thread that saves and then loads its own session
+	for(size_t ii=0;ii<I.size();ii++) for(int a=0;a<NA;a++) for(int b=a;b<NA;b++) for(int c=b;c<NA;c++){ if((idx++%n)!=(uint64_t)sh) continue; if(a>2) continue; /* at least one save */ if(!th&&(a+b+c+ii)%2) continue; std::vector<std::vector<COp> > p(3); p[0].push_back(A[a]); p[1].push_back(A[b]); p[2].push_back(A[c]); concurrent_program(I[ii],p,2); vf::guard("concurrent_triples"); }
+	for(size_t ii=0;ii<I.size();ii++) for(int a=0;a<2;a++) for(int b=0;b<NA;b++){ if((idx++%n)!=(uint64_t)sh) continue; std::vector<std::vector<COp> > p(2); p[0].push_back(A[a]); p[0].push_back(A[3]); p[1].push_back(A[b]); concurrent_program(I[ii],p,th?3:2); vf::guard("concurrent_save_then_load"); }
+	vf::guard("concurrent_executions",n_cexec); vf::guard("concurrent_histories_with_overlapping_operations",n_coverlap); }
+
 int main(int argc,char **argv){ vf::init(argc,argv,"C18","fault_enumeration"); int n=16;
 	vf::C().rule="histories of 1..3 saves on one sid over 13 payload kinds (0,1,16,495,496,497,1100 bytes; 4500/5000/9000-byte values whose versions differ only in two places beyond byte 4096, overwritten in 9 old->new pairs; pairs differing only in the last sector / only in sector 0 / only in the deadline) x deadlines {past, future, later}; for the last save: every prefix of the write() call sequence and every byte prefix of the in-flight data call (process crash; the 16-byte header write is atomic), every assignment of {old, after-header, final} to sector 0 and {old, final} to each later 512-byte sector x every admissible file length (machine crash, no fsync is issued), absent/empty file; each recovered by a fresh storage object with scripts {load; gc,load; load,gc,load} under clocks {before, just after each deadline, exactly at the last one}; plus garbage files (every length 0..20, perturbed size/crc/deadline fields, bit flips). distinct = (load verdict, length, deadline, script); non-trivial = all";
-	vf::assume("the 16-byte header lies in sector 0 and a sector is written atomically; unwritten tail bytes read as zeros"); vf::assume("CRC-32 cannot prove absence of old/new mixtures for arbitrary payloads: the claim is for the enumerated payload pairs, each mixture actually constructed and loaded"); vf::assume("a sub-pass repeats a quarter of the histories with the clock in 2039 (time_t beyond 2^31)"); vf::assume("at now == deadline either verdict is accepted; concurrent access to one sid is not covered");
+	vf::assume("the 16-byte header lies in sector 0 and a sector is written atomically; unwritten tail bytes read as zeros"); vf::assume("CRC-32 cannot prove absence of old/new mixtures for arbitrary payloads: the claim is for the enumerated payload pairs, each mixture actually constructed and loaded"); vf::assume("a sub-pass repeats a quarter of the histories with the clock in 2039 (time_t beyond 2^31)"); vf::assume("at now == deadline either verdict is accepted; concurrency: threads of one process on one storage object in mutex mode (sub-pass concurrent); several processes (fcntl mode) are not covered"); vf::assume("sub-pass concurrent: 2 threads x 1 operation from {save A, save B (longer), save with a past deadline, load, remove, gc} (<= 3 preemptions, thorough 4), 3 threads x 1 operation (<= 2), save-then-load against one operation (<= 2, thorough 3), over 5 earlier file states {absent, live, past its deadline, empty, torn}; scheduling points = pthread mutex operations and open/read/write/unlink; every history + final load must be linearizable w.r.t. a one-cell reference");
 	if(!vf::C().replay_file.empty()) printf("replay: C18 cases are deterministic; re-running the quick tier reproduces the case named in the replay file\n");
 	if(vf::C().pass=="epoch2039"){ // the histories again (every 4th) with the clock beyond 2^31 seconds (year 2039): the deadline is stored in the file header
 		T0=(time_t)2200000000LL; g_now=T0; vf::parallel(n,n,[&](int sh){ g_dir=vf::scratch_dir()+"/sess39_"+std::to_string(sh); mkdir(g_dir.c_str(),0777); histories(sh*4+1,n*4,false); vf::guard("epoch2039_crash_states",n_states); std::string cmd="rm -rf '"+g_dir+"'"; if(system(cmd.c_str())){} },600); return vf::finish(); }
+	if(vf::C().pass=="concurrent"){ vf::parallel(n,n,[&](int sh){ g_dir=vf::scratch_dir()+"/sessc_"+std::to_string(sh); mkdir(g_dir.c_str(),0777); concurrent_pass(sh,n); std::string cmd="rm -rf '"+g_dir+"'"; if(system(cmd.c_str())){} },vf::thorough()?900:200); return vf::finish(); }
 	vf::parallel(n,n,[&](int sh){ g_dir=vf::scratch_dir()+"/sess"+std::to_string(sh); mkdir(g_dir.c_str(),0777); histories(sh,n,false); if(vf::thorough()) histories(sh,n,true); garbage(sh,n); vf::guard("crash_states",n_states); std::string cmd="rm -rf '"+g_dir+"'"; if(system(cmd.c_str())){} },vf::thorough()?1500:250);
-	vf::run_sub("asan","epoch2039");
-	vf::require_guard("process_crash_states"); vf::require_guard("epoch2039_crash_states"); vf::require_guard("machine_crash_states"); vf::require_guard("recovered_complete_value"); vf::require_guard("recovered_nothing"); vf::require_guard("saves_logged"); vf::require_guard("garbage_files"); vf::require_guard("histories_with_values_over_4096_bytes");
+	vf::run_sub("asan","epoch2039"); vf::run_sub("asan","concurrent");
+	vf::require_guard("concurrent_executions"); vf::require_guard("concurrent_histories_with_overlapping_operations"); vf::require_guard("concurrent_programs_with_several_outcomes"); vf::require_guard("process_crash_states"); vf::require_guard("epoch2039_crash_states"); vf::require_guard("machine_crash_states"); vf::require_guard("recovered_complete_value"); vf::require_guard("recovered_nothing"); vf::require_guard("saves_logged"); vf::require_guard("garbage_files"); vf::require_guard("histories_with_values_over_4096_bytes");
 	return vf::finish(); }
